@@ -6,7 +6,7 @@
    is the regression layer [unquote_int32] (the int32 accumulator of \U escapes
    that fix unquote-U removed) -- the round-trip theorems hold for both. *)
 From Verif Require Import Utf8.Model Utf8.Proofs Lit.Quote Lit.Unquote Lit.Basics Lit.Steps Lit.Loops
-  Lit.HashCount Lit.Raw Lit.RoundTrip Lit.NoPanic Lit.Examples.
+  Lit.HashCount Lit.Raw Lit.RoundTrip Lit.NoPanic Lit.Examples Lit.Indent Lit.IndentProofs.
 From Coq Require Import List NArith ZArith.
 Import ListNotations.
 
@@ -205,3 +205,75 @@ Example C09_ex_unquote_big_U_rejected :
   unquote_int32 [34; 97; 98; 99; 92; 85; 70; 70; 70; 70; 70; 70; 70; 70; 100; 101; 102; 34] = Ok [97; 98; 99].
 Proof. exact unquote_big_U_rejected. Qed.
 Print Assumptions C09_ex_unquote_big_U_rejected.
+
+(* ---- IndentTabs (cue/literal/indent.go): re-indentation of multi-line literals ---- *)
+
+(* IndentTabs(f.Quote(s), n) is, byte for byte, f.WithTabIndent(n).Quote(s): for every
+   text, every public form and any tables, whenever Quote wrote a multi-line literal
+   indented with at least one tab (strings.ReplaceAll over the escape loop's output:
+   line starts are rewritten, empty lines and escape sequences are left alone) *)
+Theorem C09_indent_tabs_quote : forall pr_tbl gr_tbl f s n,
+  public_form f -> eff_multiline f s = true -> (0 < f_indent f)%nat ->
+  indent_tabs (quote pr_tbl gr_tbl f s) n = quote pr_tbl gr_tbl (set_indent f n) s.
+Proof. exact indent_tabs_quote. Qed.
+Print Assumptions C09_indent_tabs_quote.
+
+(* ... hence re-indentation never changes what the literal means *)
+Theorem C09_unquote_indent_tabs_quote : forall pr_tbl gr_tbl wrap f s n,
+  public_form f -> is_bytes s -> eff_multiline f s = true -> (0 < f_indent f)%nat ->
+  unquote wrap (indent_tabs (quote pr_tbl gr_tbl f s) n) = Ok (expected f s).
+Proof. exact unquote_indent_tabs_quote. Qed.
+Print Assumptions C09_unquote_indent_tabs_quote.
+
+Theorem C09_indent_tabs_quote_compose : forall pr_tbl gr_tbl f s n m,
+  public_form f -> eff_multiline f s = true -> (0 < f_indent f)%nat -> (0 < n)%nat ->
+  indent_tabs (indent_tabs (quote pr_tbl gr_tbl f s) n) m = indent_tabs (quote pr_tbl gr_tbl f s) m.
+Proof. exact indent_tabs_quote_compose. Qed.
+Print Assumptions C09_indent_tabs_quote_compose.
+
+(* the side condition is exact: written with NO indentation the search string is a
+   bare newline and ReplaceAll also indents the empty lines, which Quote never does
+   (the bytes differ; the value read back is still the text) *)
+Theorem C09_indent_tabs_quote_indent0_refuted : exists f s n,
+  public_form f /\ eff_multiline f s = true /\ f_indent f = 0%nat /\
+  indent_tabs (quote no_tbl no_tbl f s) n <> quote no_tbl no_tbl (set_indent f n) s /\
+  unquote_impl (indent_tabs (quote no_tbl no_tbl f s) n) = Ok s.
+Proof. exact indent_tabs_quote_indent0_refuted. Qed.
+Print Assumptions C09_indent_tabs_quote_indent0_refuted.
+
+(* every input: what is not a multi-line literal, or is already indented so, is returned
+   as is; the only partial operation is strings.Repeat with a negative count *)
+Theorem C09_indent_tabs_not_multiline : forall s n, pq_ws s = None -> indent_tabs s n = s.
+Proof. exact indent_tabs_not_multiline. Qed.
+Print Assumptions C09_indent_tabs_not_multiline.
+
+Theorem C09_indent_tabs_same : forall s n, pq_ws s = Some (tabs n) -> indent_tabs s n = s.
+Proof. exact indent_tabs_same. Qed.
+Print Assumptions C09_indent_tabs_same.
+
+Theorem C09_indent_tabs_go_panics_iff : forall s n, indent_tabs_go s n = Panic <-> (n < 0)%Z.
+Proof. exact indent_tabs_go_panics_iff. Qed.
+Print Assumptions C09_indent_tabs_go_panics_iff.
+
+Theorem C09_indent_tabs_go_total : forall s n, (0 <= n)%Z ->
+  indent_tabs_go s n = Ok (indent_tabs s (Z.to_nat n)).
+Proof. exact indent_tabs_go_total. Qed.
+Print Assumptions C09_indent_tabs_go_total.
+
+Example C09_ex_indent_tabs_quote :
+  let f := with_tab_indent string_form 1 in
+  let s := [97; 10; 10; 9; 98] in
+  quote no_tbl no_tbl f s = [34;34;34;10; 9;97;10; 10; 9;92;116;98;10; 9;34;34;34] /\
+  indent_tabs (quote no_tbl no_tbl f s) 3 = [34;34;34;10; 9;9;9;97;10; 10; 9;9;9;92;116;98;10; 9;9;9;34;34;34] /\
+  indent_tabs (quote no_tbl no_tbl f s) 3 = quote no_tbl no_tbl (set_indent f 3) s /\
+  unquote_impl (indent_tabs (quote no_tbl no_tbl f s) 3) = Ok s.
+Proof. exact ex_indent_tabs_quote. Qed.
+Print Assumptions C09_ex_indent_tabs_quote.
+
+Example C09_ex_indent_tabs_other :
+  indent_tabs [34; 97; 34] 2 = [34; 97; 34] /\
+  indent_tabs [34; 34; 34; 120] 2 = [34; 34; 34; 120] /\
+  indent_tabs_go [34; 97; 34] (-1) = Panic /\
+  indent_tabs [34;34;34;10; 32;32;32;97;10; 32;32;34;34;34] 1 = [34;34;34;10; 9;32;97;10; 9;34;34;34].
+Proof. exact ex_indent_tabs_other. Qed.
+Print Assumptions C09_ex_indent_tabs_other.
